@@ -45,6 +45,7 @@ pub fn decode(tape: &[u16]) -> Case {
     }
     let spec = sched_spec(&mut t);
     let input = input_in(&mut t, &InputOpts { max_frags: 18, safe_only: true, ..Default::default() }, enc);
+    let input = crate::gens::input::maybe_long(&mut t, input, 12);
     let cuts = spec.resolve(input.len());
     Case { input, cuts, h, observers: obs }
 }
